@@ -266,8 +266,14 @@ class SandboxedEnvironment(Environment):
         This also recognizes the Django convention of setting
         ``func.alters_data = True``.
         """
+        # An instance is called through its class's __call__ method, which
+        # can carry the markers as well.
+        call = getattr(type(obj), "__call__", None)
         return not (
-            getattr(obj, "unsafe_callable", False) or getattr(obj, "alters_data", False)
+            getattr(obj, "unsafe_callable", False)
+            or getattr(obj, "alters_data", False)
+            or getattr(call, "unsafe_callable", False)
+            or getattr(call, "alters_data", False)
         )
 
     def call_binop(
